@@ -254,6 +254,28 @@ func buildModel(rec *Recording) *model {
 	return m
 }
 
+// walStopsAt returns the id of the first replayable transaction (in replay order) of the crash state's
+// WAL that names a file which does not exist in the crash state, 0 if there is none.
+func walStopsAt(s *snap) int64 {
+	var stop int64
+	for _, msgs := range s.walImages() {
+		rp := replayable(msgs)
+		sort.Slice(rp, func(i, j int) bool { return rp[i].TGID < rp[j].TGID })
+	scan:
+		for _, tg := range rp {
+			for _, c := range tg.Cmds {
+				if _, ok := s.FS.Files[c.Path]; !ok {
+					if stop == 0 || tg.TGID < stop {
+						stop = tg.TGID
+					}
+					break scan
+				}
+			}
+		}
+	}
+	return stop
+}
+
 // destroyState: for bucket key at prefix k: (indeterminate: a Destroy is in flight; cutoff: effect position
 // of the last acknowledged Destroy's start, writes started before it no longer count; -1 none).
 func (m *model) destroyState(key string, k int) (indeterminate bool, cutoff int) {
@@ -564,10 +586,23 @@ func (m *model) judge(s *snap, r *Recovered) *verdict {
 					split = false
 				}
 			}
-			if split && m.rec.H.Mode == "background" {
+			// listed defect F-WALSKIP: replay of a WAL file stops at the first un-checkpointed transaction that
+			// names a file which no longer exists (its bucket was destroyed after the transaction was logged);
+			// the later transactions of that WAL file, the in-flight one included, are not replayed, so the
+			// request stays as far applied as the crash left it. Trigger computed from the crash state.
+			skipFrom := walStopsAt(s)
+			skipped := skipFrom != 0 && len(tgs) > 0
+			for t := range tgs {
+				if t < skipFrom {
+					skipped = false
+				}
+			}
+			if skipped {
+				v.add(&v.C02, "known", "F-WALSKIP", fmt.Sprintf("%s: in-flight request %d applied partially (%d rows visible, %d not): replay stopped at transaction %d, which names a file of a destroyed bucket, and never reached the request's transaction(s) %v", where, id, p[0], p[1], skipFrom, tgs))
+			} else if split && m.rec.H.Mode == "background" {
 				v.add(&v.C02, "known", "F-SPLIT", fmt.Sprintf("%s: in-flight request %d applied partially (%d rows visible, %d not): its commands were logged as %d separate transactions and only the first was committed before the crash", where, id, p[0], p[1], len(tgs)))
 			} else {
-				v.add(&v.C02, "violation", "", fmt.Sprintf("%s: in-flight request %d applied partially: %d rows visible, %d not", where, id, p[0], p[1]))
+				v.add(&v.C02, "violation", "", fmt.Sprintf("%s: in-flight request %d applied partially: %d rows visible, %d not (invisible payloads %v, logged as transactions %v)", where, id, p[0], p[1], invisibleVs[id], tgs))
 			}
 		}
 		v.cnt("inflight_requests_checked", 1)
